@@ -181,6 +181,26 @@ func genC05(c *ctx) {
 			}
 			return out
 		}
+		// well-formed arrays in several blocks of growing, shrinking and equal sizes (plain and size-prefixed):
+		// the slice is re-sized per block, every item must land inside the backing array
+		for _, pat := range [][]int{{1, 5}, {2, 3, 40}, {1, 1, 1, 9}, {5, 1}, {16, 17}, {3, 3}, {1, 2, 4, 8, 16, 32}} {
+			for _, sized := range []bool{false, true} {
+				var b []byte
+				for _, n := range pat {
+					if sized {
+						b = append(b, refVarint(int64(-n))...)
+						b = append(b, refVarint(int64(n*len(item)))...)
+					} else {
+						b = append(b, refVarint(int64(n))...)
+					}
+					b = append(b, rep(n)...)
+				}
+				b = append(b, refVarint(0)...)
+				b = append(b, 0x7e)
+				sch := sRecord("holder", avro.SchemaRecordField{Name: "a", Type: sArray(isch)})
+				c.emit(T("tread", A("blocks"), A("array-multi-block"), c05Holder(T("slice", k)), schemaSx(sch), H(b)))
+			}
+		}
 		for _, first := range []int{0, 1, 2, 5} {
 			for _, big := range []int64{1<<63 - 1, 1<<63 - 2, (1<<63 - 1) - int64(first) + 1, 1 << 62, -1 << 63, -(1<<63 - 1), -(1<<63 - 2)} {
 				// only counts the slice length cannot take (Len+count overflows, or -count stays negative); counts that
